@@ -83,6 +83,16 @@ func verifReencodeMatches(m message, frame []byte) bool {
 	if len(body.b) > len(frame)-7 {
 		return false
 	}
+	if _, ok := m.(*tgetattr); ok && len(frame) >= 19 {
+		// request_mask[8]: only bits 0..13 (P9_GETATTR_ALL = 0x3fff) name
+		// attributes; AttrMask has no field for the others, they carry no value
+		f := append([]byte{}, frame...)
+		f[12] &= 0x3f
+		for i := 13; i < 19; i++ {
+			f[i] = 0
+		}
+		frame = f
+	}
 	return verifBytesDiff(body.b, frame[7:7+len(body.b)]) == 0
 }
 
